@@ -17,6 +17,8 @@ SOURCES = {
     "iteru": ("IterIntoPar::par(Src::new(input.clone(), false))", "val", False),
     "deque": ("dq.into_par()", "val", True),
     "endless": ("IterIntoPar::par(Endless::new())", "val", False),
+    # a very long range (closure calls are only counted)
+    "bigrange": ("(0..c.big).into_par()", "us", True),
     # std collections, borrowed and owned; the sequential iteration order is reported (effin)
     "dequeref": ("dq.par()", "ref", True),
     "btset": ("coll.par()", "ref", True),
@@ -43,7 +45,7 @@ PRELUDE = {
     "prevec": "let ci = input.clone().into_con_iter(); for _ in 0..c.pre { let _ = ci.next(); }",
     "preslice": "let ci = input.as_slice().into_con_iter(); for _ in 0..c.pre { let _ = ci.next(); }",
     "preiterx": "let ci = IterIntoConcurrentIter::into_con_iter(input.clone().into_iter()); for _ in 0..c.pre { let _ = ci.next(); }",
-    "preiteru": "let ci = IterIntoConcurrentIter::into_con_iter(input.clone().into_iter().filter(|_| true)); for _ in 0..c.pre { let _ = ci.next(); }",
+    "preiteru": "let ci = IterIntoConcurrentIter::into_con_iter(Unk(input.clone().into_iter())); for _ in 0..c.pre { let _ = ci.next(); }",
 }
 EFFIN_SOURCES = ("btset", "hashset", "llist", "bheap")
 PRE_SOURCES = ("prevec", "preslice", "preiterx", "preiteru")
@@ -95,7 +97,7 @@ def chains_for(source):
         out += [a + b for a in STAGES for b in STAGES]
         out += [p + c for p in ("MF", "OF", "XF") for c in STAGES]
         return out
-    if source == "endless":
+    if source in ("endless", "bigrange"):
         return ["", "M", "F", "MF", "X", "O"]
     if source in EFFIN_SOURCES or source in ("dequeref", "cloned"):
         return ["", "M", "F", "X", "MF"]
